@@ -472,7 +472,8 @@ META["C15"] = dict(
     rule="a case is (set of link features, channel, which target got a user value, keys given by config, options given on argv); "
     "distinct by hash; non-trivial = the parser has at least one link and the parse succeeded.",
     gates={
-        "mon.link_invariant": g(2000, 20000), "mon.dump_checked": g(500, 5000), "mon.target_option_rejected": g(300, 3000),
+        "mon.link_invariant": g(2000, 20000), "mon.dump_checked": g(500, 5000), "mon.reparse_after_editing_sources_in_the_result": g(150, 1500), "st.group_source_into_untyped_target": g(600, 6000), "st.mapping_supplied_for_untyped_target_of_group_link": g(150, 1500),
+        "mon.target_option_rejected": g(300, 3000),
         "st.target.plain": g(500, 5000), "st.target.init_arg": g(200, 2000), "st.target.list-items": g(200, 2000),
         "st.target.plain-from-class-init-arg": g(150, 1500), "st.target_value_supplied": g(200, 2000), "st.subcommand_links": g(200, 2000),
         "ev.env.return": g(50, 500), "ev.object.return": g(100, 1000), "ev.string.return": g(100, 1000), "ev.argv+cfg.return": g(100, 1000),
